@@ -26,6 +26,8 @@ func runC06(c *Ctx) {
 	c.ruleFalsifyingStepsWake("R06.4")
 	c.ruleReserveBeforeDequeue("R06.5")
 	c.ruleBarrierComposition("R06.6")
+	// the barrier sees every dispatch: the step reserves its slot before it reads the status
+	c.ruleReserveThenCheck("R06.7")
 }
 
 // predicateLeaves maps the operands of the barrier predicates to an abstract state.
@@ -198,9 +200,11 @@ func (c *Ctx) rulePredicates(r1, r2 string) {
 				te.effect = func(f *Func, call *ast.CallExpr) bool {
 					ce := resolveCallee(f.Info(), call)
 					switch ce.Key {
-					case kBroadcast, kSignal:
+					case kBroadcast:
 						reached = true
 						return true
+					case kSignal:
+						return true // wakes one waiter only: not a release (reported by the Broadcast rule)
 					case "sync.RWMutex.Lock", "sync.RWMutex.Unlock", "sync.Mutex.Lock", "sync.Mutex.Unlock", "sync.RWMutex.RLock", "sync.RWMutex.RUnlock":
 						return true
 					}
@@ -235,6 +239,13 @@ func (c *Ctx) ruleBroadcastUnderLock(rule string) {
 	}
 	if n == 0 {
 		c.Rep.fail(rule, "-", "no Broadcast on the barrier Cond", "", "nobody ever broadcasts on the barrier Cond: waiters are never woken")
+	}
+	// any number of barrier callers may be parked on the one Cond: a release is a Broadcast, never a Signal
+	for _, cs := range c.P.allCalls(false) {
+		if cs.Callee.Key == kSignal && cs.In.Pkg.PkgPath == modPath {
+			c.Rep.fail(rule, cs.In.Short(), "Signal on the barrier Cond", c.P.pos(cs.Call),
+				cs.In.Short()+" wakes the barrier with Cond.Signal: only one of the parked callers (WaitUntilFinished, PauseAndWait, Stop, WaitAndStop may all wait at once) is woken, the others sleep although their condition holds")
+		}
 	}
 }
 
